@@ -4,6 +4,8 @@ Simulated: two consumers of one token stream - the dependency lister and the eva
 recording names mapping handed to eval, after arbitrary earlier calls on the same long-lived parser (stale lexer
 position, abandoned generators, failed parses: the history is the fault). Names are known by construction.
 """
+import copy
+
 from .. import boot, canon, gen, lang, history, badsrc
 from ..proggen import ProgGen
 from ..rng import Streams, weighted
@@ -234,7 +236,7 @@ def execute(case, ctx):
                 ctx.report('list_names_failed_on_valid_program', 'step %d list_names(%r) raised %r' % (step, src[:200], e),
                            {'kind': 'list_names_failed_on_valid_program'})
                 continue
-            names = RecNames({k: VALUES[t] for k, t in op['env'].items()})
+            names = RecNames({k: copy.deepcopy(VALUES[t]) for k, t in op['env'].items()})
             try:
                 parser.eval(src, names, max_ops_evaluated=5000)
             except Exception:
